@@ -7,7 +7,7 @@ import random
 import gen
 from codec import Builder, dec, enc
 
-VALS = [0, 1, None, False, "", "v", 2.5, [], {}, [1], {"n": 1}, [[], {}], {"a": {"b": []}}]
+VALS = [0, 1, None, False, "", "v", 2.5, [], {}, [1], {"n": 1}, [[], {}], {"a": {"b": []}}, True, 1.0, 0.0]
 
 
 def locations(doc, prefix=()):
@@ -261,8 +261,13 @@ def gen_mutate(rng, profile):
                 nh += 1
             else:
                 hid = rng.choice(sorted(live)) if live and rng.random() < 0.9 else rng.randint(0, 3)
-                k = rng.choice(["h.assign", "h.assign", "h.del", "h.pop", "h.pop", "h.data"])
-                if k == "h.assign":
+                k = rng.choice(["h.assign", "h.assign", "h.del", "h.pop", "h.pop", "h.data", "h.parent"])
+                if k == "h.parent":
+                    # the parent Match of a live handle: replacing a container through it redirects the child's writes
+                    nid = rng.randint(0, 3)
+                    live.add(nid)
+                    op = [k, nid, hid]
+                elif k == "h.assign":
                     # fresh values only: an alias could be stored inside itself (cyclic document)
                     op = [k, hid, ["new", enc(copy.deepcopy(rng.choice(VALS)))]]
                 elif k == "h.pop":
@@ -347,9 +352,10 @@ def gen_descr_op(rng, doc):
     if rng.random() < 0.12:
         chain[-1] = [rng.choice(gen.KEYS), None]          # a missing attribute
     if r < 0.5:
-        return ["d.get", chain, rng.choice(["get", "get", "find", "get_match"]), rng.choice(["id", "id", "neg", "box"])]
+        return ["d.get", chain, rng.choice(["get", "get", "get", "find", "find", "get_match", "get_match", "itc", "itx"]),
+                rng.choice(["id", "id", "neg", "box"])]
     if r < 0.85:
-        kind = "iter" if rng.random() < 0.12 else "plain"
+        kind = rng.choice(["iter", "iterc", "iterx"]) if rng.random() < 0.2 else "plain"
         conv = rng.choice(["id", "id", "neg", "box"])
         vs = gen_valspec(rng, doc)
         if vs[0] == "at" and (loc is None or tuple(vs[1]) == tuple(loc[:len(vs[1])])):
@@ -378,7 +384,7 @@ def gen_list_op(rng, doc, live, its):
     if k in ("l.in", "l.append"):
         return [k, lid, ["new", enc(rng.choice(VALS))]]
     if k in ("l.keep", "l.remove"):
-        return [k, lid, rng.choice(["truthy", "none", "all", "is_num", "small"])]
+        return [k, lid, rng.choice(["truthy", "none", "all", "is_num", "small", "is_bool", "is_int", "is_float"])]
     if k == "l.it.next" and not its:
         k = "l.it.new"
     if k == "l.it.new":
@@ -393,7 +399,12 @@ def gen_views(rng, profile):
     if not isinstance(doc, dict) and rng.random() < 0.85:
         doc = {"a": doc, "b": [1, {"c": 2}, 0, "s"], "l": []}
     if profile == "listview" and isinstance(doc, dict) and rng.random() < 0.6:
-        doc[rng.choice(gen.KEYS)] = rng.choice([[], [1, 2, 3], [0, "", None, 2.5, {"a": 1}], [3, 1, 2, 0, 5]])
+        if rng.random() < 0.3:
+            # values that compare equal without being the same JSON value (1 == True == 1.0, 0 == False == 0.0)
+            mixed = [rng.choice([0, False, 0.0, 1, True, 1.0, 1, True]) for _ in range(rng.randint(2, 6))]
+            doc[rng.choice(gen.KEYS)] = mixed
+        else:
+            doc[rng.choice(gen.KEYS)] = rng.choice([[], [1, 2, 3], [0, "", None, 2.5, {"a": 1}], [3, 1, 2, 0, 5]])
     sc = {"fam": "m", "doc": enc(doc), "ops": []}
     live, its = set(), set()
     shadow = copy.deepcopy(doc)
